@@ -7,7 +7,8 @@ from runner import Case
 from props import _e_util as U
 
 THEOREMS = ["C13.heap_store", "C13.heap_parent", "C13.heap_tree", "C13.heap_empty_refused",
-            "C13.nested_mirror", "C13.nested_accepted_iff"]
+            "C13.nested_mirror", "C13.nested_accepted_iff",
+            "C13.relation_exact", "C13.relation_children_in_row_order", "C13.root_candidates", "C13.relation_refused"]
 PROOF_IMPORTS = ["BigtreeProofs.Properties.C13"]
 NAMED_REJ = ("ValueError",)
 LIBS = ["list", "pd", "pdobj", "pl"]
